@@ -14,7 +14,7 @@ pub struct C08;
 
 const BASES: &[&str] = &["int", "uint", "float", "angle", "bool", "bit", "complex", "duration", "stretch"];
 const WIDTHS: &[Option<u32>] = &[None, Some(8), Some(32), Some(64)];
-const FORMS: &[&str] = &["literal", "negative-literal", "variable", "const-variable", "arithmetic", "cast", "call", "measurement", "shadowed-variable"];
+const FORMS: &[&str] = &["literal", "negative-literal", "variable", "const-variable", "arithmetic", "cast", "call", "measurement", "shadowed-variable", "loop-variable", "def-parameter"];
 const CONTEXTS: &[&str] = &["declaration", "const-declaration", "assignment"];
 
 #[derive(Clone, Copy, PartialEq, Debug)]
@@ -27,10 +27,24 @@ fn takes_width(b: &str) -> bool {
     matches!(b, "int" | "uint" | "float" | "angle" | "bit" | "complex")
 }
 
+thread_local! {
+    /// spelling of the widths in the program under construction (0,1 decimal, 2 hex, 3 octal, 4 binary)
+    static WIDTH_SPELLING: std::cell::Cell<u64> = const { std::cell::Cell::new(0) };
+}
+
+fn width_text(w: u32) -> String {
+    match WIDTH_SPELLING.with(|c| c.get()) % 5 {
+        2 => format!("0x{w:X}"),
+        3 => format!("0o{w:o}"),
+        4 => format!("0b{w:b}"),
+        _ => w.to_string(),
+    }
+}
+
 fn text(t: Ty) -> String {
     match (t.base, t.width) {
-        ("complex", Some(w)) => format!("complex[float[{w}]]"),
-        (b, Some(w)) => format!("{b}[{w}]"),
+        ("complex", Some(w)) => format!("complex[float[{}]]", width_text(w)),
+        (b, Some(w)) => format!("{b}[{}]", width_text(w)),
         (b, None) => b.to_string(),
     }
 }
@@ -122,8 +136,19 @@ struct Case {
     value_label: String,
 }
 
+/// The widths of a case are written in one radix, chosen by the coordinates of the case.
 fn build(ctx: &str, target: Ty, value: Ty, form: &'static str) -> Option<Case> {
+    let h = mix(&[ctx.len() as u64, class_of(target).len() as u64 * 131 + target.width.unwrap_or(0) as u64, value.width.unwrap_or(1) as u64 * 7 + value.base.len() as u64, form.len() as u64 * 31 + form.as_bytes()[0] as u64]);
+    WIDTH_SPELLING.with(|c| c.set(h));
+    let r = build_spelled(ctx, target, value, form);
+    WIDTH_SPELLING.with(|c| c.set(0));
+    r
+}
+
+fn build_spelled(ctx: &str, target: Ty, value: Ty, form: &'static str) -> Option<Case> {
     let mut pre = String::new();
+    // a statement wrapper for the forms whose value only exists inside a body
+    let mut wrap: Option<(String, &str)> = None;
     let mut negative = false;
     let mut value_width_known = true;
     let mut vty = value;
@@ -166,6 +191,26 @@ fn build(ctx: &str, target: Ty, value: Ty, form: &'static str) -> Option<Case> {
                 return None;
             }
             pre.push_str(&format!("{} src;\n", text(value)));
+            "src".into()
+        }
+        // the loop variable of a `for` statement and a subroutine parameter are variables, not constants
+        "loop-variable" => {
+            if ctx == "const-declaration" {
+                return None;
+            }
+            let iter = match value.base {
+                "int" | "uint" => "[0:3]",
+                "float" => "{1.0, 2.0}",
+                _ => return None,
+            };
+            wrap = Some((format!("for {} src in {iter} {{ ", text(value)), " }"));
+            "src".into()
+        }
+        "def-parameter" => {
+            if ctx != "declaration" || value.base == "stretch" {
+                return None;
+            }
+            wrap = Some((format!("def fp({} src) {{ ", text(value)), " }"));
             "src".into()
         }
         "const-variable" => {
@@ -225,6 +270,10 @@ fn build(ctx: &str, target: Ty, value: Ty, form: &'static str) -> Option<Case> {
                 format!("tgt = {expr};")
             }
         }
+    };
+    let stmt = match wrap {
+        Some((open, close)) => format!("{open}{stmt}{close}"),
+        None => stmt,
     };
     Some(Case {
         src: format!("{pre}{stmt}\n"),
@@ -333,6 +382,12 @@ fn check_case(c: &Case, ctx: &str, obs: &mut Obs) {
         let mut last = res.program().stmts().last().cloned();
         if let Some(Stmt::If(i)) = &last {
             last = i.then_branch().statements().last().cloned();
+        }
+        if let Some(Stmt::ForStmt(f)) = &last {
+            last = f.loop_body().statements().last().cloned();
+        }
+        if let Some(Stmt::DefStmt(d)) = &last {
+            last = d.block().statements().last().cloned();
         }
         let mut local = Vec::new();
         let value: Option<TExpr> = match &last {
